@@ -143,6 +143,12 @@ func (lb *WeightedRandomLoadBalancer) ChooseServer(req *httpprot.Request) *Serve
 		return nil
 	}
 
+	// validation accepts a pool in which no server has a weight, treat
+	// all servers equally in this case instead of calling rand.Intn(0).
+	if lb.totalWeight <= 0 {
+		return lb.Servers[rand.Intn(len(lb.Servers))]
+	}
+
 	randomWeight := rand.Intn(lb.totalWeight)
 	for _, server := range lb.Servers {
 		randomWeight -= server.Weight
